@@ -16,7 +16,19 @@ import (
 	"verifharness/internal/cq"
 	"verifharness/internal/framefmt"
 	"verifharness/internal/macfmt"
+	"verifharness/internal/noise"
 )
+
+// nr drives the unrelated library calls made between the compared calls (own stream: case generation is unaffected)
+var nr *cq.RNG
+var lastKey = "(none)"
+
+func clip(k string) string {
+	if len(k) > 300 {
+		return k[:300] + "..."
+	}
+	return k
+}
 
 func hx(b []byte) string { return fmt.Sprintf("%x", b) }
 
@@ -85,10 +97,17 @@ func frmCase(s *cases.Set, r *cq.RNG, n int, kind string) {
 	if r.Intn(8) == 0 {
 		data = make([]byte, n) // all-zero plaintext: the output is the keystream itself
 	}
+	noise.Step(nr)
+	frmCall(s, k, up, da, fc, data, kind, "")
+}
+
+// frmCall: one compared call of the exported EncryptFRMPayload.
+func frmCall(s *cases.Set, k lorawan.AES128Key, up bool, da lorawan.DevAddr, fc uint32, data []byte, kind, what string) {
+	n := len(data)
 	out, o := encFrm(k, up, da, fc, data)
-	ks := fmt.Sprintf("frm:len=%d:up=%v:devaddr=%s:fcnt=%d:key=%s:data=%s", n, up, hx(da[:]), fc, hx(k[:]), hx(data))
+	ks := fmt.Sprintf("frm:%slen=%d:up=%v:devaddr=%s:fcnt=%d:key=%s:data=%s", what, n, up, hx(da[:]), fc, hx(k[:]), hx(data))
 	rep := map[string]interface{}{"api": "EncryptFRMPayload(key, uplink, devAddr, fCnt, data)", "key": hx(k[:]), "uplink": up,
-		"devAddr": hx(da[:]), "fCnt": fc, "data": hx(data), "observed": o}
+		"devAddr": hx(da[:]), "fCnt": fc, "data": hx(data), "observed": o, "previous_compared_call": lastKey}
 	if out != nil || o == cq.Ok("[]") {
 		// Go-side: length preserved and the operation is its own inverse
 		back, _ := encFrm(k, up, da, fc, out)
@@ -98,17 +117,57 @@ func frmCase(s *cases.Set, r *cq.RNG, n int, kind string) {
 	}
 	s.Add(cases.Case{Term: fmt.Sprintf("CFrm %s %s %s %d %s %s", cq.Bytes(k[:]), cq.Bool(up), cq.Bytes(da[:]), fc, cq.Bytes(data), o),
 		Key: ks, Kind: kind, Nontrivial: n > 0, Replay: rep})
+	lastKey = clip(ks)
+	if n <= 300 {
+		s.Remember(ks, o, rep, func() string { _, o2 := encFrm(k, up, da, fc, data); return o2 })
+	}
+}
+
+// frmFamily: a base call, then back to back the same call with exactly one argument changed (single FCnt bits -
+// above and below bit 16 -, FCnt + 2^16, direction, one DevAddr byte, key zeroed / one key bit, a longer payload
+// with the same prefix), then the base call again. The function keeps no state: every call must use its own keystream.
+func frmFamily(s *cases.Set, r *cq.RNG, i int) {
+	k, up := key(r), r.Bool()
+	fc := uint32(r.Intn(1 << 16))
+	if i%3 == 0 {
+		fc = counter(r)
+	}
+	var da lorawan.DevAddr
+	copy(da[:], r.Bytes(4))
+	data := r.Bytes(1 + r.Intn(40))
+	var zero lorawan.AES128Key
+	noise.Step(nr)
+	frmCall(s, k, up, da, fc, data, "family-frm-base", "")
+	for _, b := range []uint{16, 31, 16 + uint(i%16), uint(i % 16)} {
+		frmCall(s, k, up, da, fc^(1<<b), data, "family-frm", fmt.Sprintf("neighbour-fcnt-bit%d:", b))
+	}
+	frmCall(s, k, up, da, fc+0x10000, data, "family-frm", "neighbour-fcnt+2^16:")
+	frmCall(s, k, !up, da, fc, data, "family-frm", "neighbour-direction:")
+	da2 := da
+	da2[i%4] ^= 1 << uint(i%8)
+	frmCall(s, k, up, da2, fc, data, "family-frm", "neighbour-devaddr:")
+	frmCall(s, zero, up, da, fc, data, "family-frm", "neighbour-key-zero:")
+	k2 := k
+	k2[i%16] ^= 1 << uint(i%8)
+	frmCall(s, k2, up, da, fc, data, "family-frm", "neighbour-key-bit:")
+	frmCall(s, k, up, da, fc, append(append([]byte{}, data...), r.Bytes(17)...), "family-frm", "neighbour-longer:")
+	frmCall(s, k, up, da, fc, data, "family-frm", "base-again:")
 }
 
 func foptsCase(s *cases.Set, r *cq.RNG, n int, a, up bool) {
 	k, fc := key(r), counter(r)
 	var da lorawan.DevAddr
 	copy(da[:], r.Bytes(4))
-	data := r.Bytes(n)
+	noise.Step(nr)
+	foptsCall(s, k, a, up, da, fc, r.Bytes(n), "")
+}
+
+func foptsCall(s *cases.Set, k lorawan.AES128Key, a, up bool, da lorawan.DevAddr, fc uint32, data []byte, what string) {
+	n := len(data)
 	out, o := encFOpts(k, a, up, da, fc, data)
-	ks := fmt.Sprintf("fopts:len=%d:afcntdown=%v:up=%v:devaddr=%s:fcnt=%d:key=%s:data=%s", n, a, up, hx(da[:]), fc, hx(k[:]), hx(data))
+	ks := fmt.Sprintf("fopts:%slen=%d:afcntdown=%v:up=%v:devaddr=%s:fcnt=%d:key=%s:data=%s", what, n, a, up, hx(da[:]), fc, hx(k[:]), hx(data))
 	rep := map[string]interface{}{"api": "EncryptFOpts(key, aFCntDown, uplink, devAddr, fCnt, data)", "key": hx(k[:]), "aFCntDown": a, "uplink": up,
-		"devAddr": hx(da[:]), "fCnt": fc, "data": hx(data), "observed": o}
+		"devAddr": hx(da[:]), "fCnt": fc, "data": hx(data), "observed": o, "previous_compared_call": lastKey}
 	if o != cq.Err && o != cq.Panic {
 		back, _ := encFOpts(k, a, up, da, fc, out)
 		if len(out) != len(data) || !bytes.Equal(back, data) {
@@ -119,8 +178,29 @@ func foptsCase(s *cases.Set, r *cq.RNG, n int, a, up bool) {
 	if n > 15 {
 		kind = "func-fopts-too-long"
 	}
+	if what != "" {
+		kind = "family-fopts"
+	}
 	s.Add(cases.Case{Term: fmt.Sprintf("CFOpts %s %s %s %s %d %s %s", cq.Bytes(k[:]), cq.Bool(a), cq.Bool(up), cq.Bytes(da[:]), fc, cq.Bytes(data), o),
 		Key: ks, Kind: kind, Nontrivial: n > 0, Replay: rep})
+	lastKey = clip(ks)
+	s.Remember(ks, o, rep, func() string { _, o2 := encFOpts(k, a, up, da, fc, data); return o2 })
+}
+
+func foptsFamily(s *cases.Set, r *cq.RNG, i int) {
+	k, a, up, fc := key(r), i%2 == 0, i%4 < 2, counter(r)
+	var da lorawan.DevAddr
+	copy(da[:], r.Bytes(4))
+	data := r.Bytes(1 + r.Intn(15))
+	var zero lorawan.AES128Key
+	noise.Step(nr)
+	foptsCall(s, k, a, up, da, fc, data, "base:")
+	foptsCall(s, k, !a, up, da, fc, data, "neighbour-afcntdown:")
+	foptsCall(s, k, a, !up, da, fc, data, "neighbour-direction:")
+	foptsCall(s, k, a, up, da, fc^0x10000, data, "neighbour-fcnt-bit16:")
+	foptsCall(s, k, a, up, da, fc^(1<<uint(i%32)), data, fmt.Sprintf("neighbour-fcnt-bit%d:", i%32))
+	foptsCall(s, zero, a, up, da, fc, data, "neighbour-key-zero:")
+	foptsCall(s, k, a, up, da, fc, data, "base-again:")
 }
 
 var opNames = []string{"EncFOpts", "DecFOpts", "EncFRM", "DecFRM", "DecodeFOpts", "DecodeFRM"}
@@ -157,6 +237,7 @@ func apply(op int, p *lorawan.PHYPayload, k lorawan.AES128Key) (s string) {
 // methCase applies op to p (p is consumed: the methods work in place).
 func methCase(s *cases.Set, op int, p lorawan.PHYPayload, k lorawan.AES128Key, kind, keyPrefix string) {
 	t := framefmt.Phy(p, 0)
+	noise.Step(nr)
 	o := apply(op, &p, k)
 	s.Add(cases.Case{Term: fmt.Sprintf("CMeth %s %s %s %s", opNames[op], cq.Bytes(k[:]), t, o),
 		Key: fmt.Sprintf("%s%s:key=%s:%s", keyPrefix, opNames[op], hx(k[:]), t), Kind: kind, Nontrivial: true,
@@ -251,8 +332,9 @@ func main() {
 	log.SetOutput(io.Discard)
 	dir, seed, thorough := cases.Args()
 	r := cq.NewRNG(seed)
+	nr = cq.NewRNG(seed ^ 0x9e3779b97f4a7c15)
 	s := cases.New("C03", dir, "LW.Corr.C03",
-		"FIPS-197 C.1 first; corpus: 16-byte FOpts through EncryptFOpts/DecryptFOpts (C03-1), FPort 0 with empty FRMPayload through DecryptFRMPayload (C05-1). func EncryptFRMPayload: payload lengths 0,1,15,16,17,31,32,33,255,256 + random (thorough: every length 0..255 in both directions + random up to 600), one 4112-byte payload (257 blocks: counter byte wraps), counters >= 2^16 in 70%, both directions; func EncryptFOpts: every length 0..15 x aFCntDown x direction, 16..20 (error). PHYPayload methods: frames with MAC commands in FOpts (0..15 bytes) and application payload, commands on port 0, no port, raw FOpts 16..20 bytes, an unencodable command in FOpts, raw (undecodable) bytes, FPort 0 together with FOpts (counter choice boundary), FPort absent with a non-empty FRMPayload (lengths 1..40, both directions, Encrypt and Decrypt); Encrypt then Decrypt chains; wrong payload types. Go-side: applying a function twice restores the input. A case is non-trivial unless its byte string is empty.")
+		"FIPS-197 C.1 first; corpus: 16-byte FOpts through EncryptFOpts/DecryptFOpts (C03-1), FPort 0 with empty FRMPayload through DecryptFRMPayload (C05-1). func EncryptFRMPayload: payload lengths 0,1,15,16,17,31,32,33,255,256 + random (thorough: every length 0..255 in both directions + random up to 600), one 4112-byte payload (257 blocks: counter byte wraps), counters >= 2^16 in 70%, both directions; func EncryptFOpts: every length 0..15 x aFCntDown x direction, 16..20 (error). PHYPayload methods: frames with MAC commands in FOpts (0..15 bytes) and application payload, commands on port 0, no port, raw FOpts 16..20 bytes, an unencodable command in FOpts, raw (undecodable) bytes, FPort 0 together with FOpts (counter choice boundary), FPort absent with a non-empty FRMPayload (lengths 1..40, both directions, Encrypt and Decrypt); Encrypt then Decrypt chains; wrong payload types. History: unrelated library calls (internal/noise) before every compared call; neighbour families of the exported functions run back to back (base call, then the same call with one argument changed: single FCnt bits 16, 31, one more high and one low bit, FCnt + 2^16, direction, one DevAddr bit, key zeroed, one key bit, a longer payload with the same prefix, aFCntDown; then the base call again), each compared with model and specification; every exported-function call is repeated three times later in the process (reverse, same, shuffled order) and must give its first result. Go-side: applying a function twice restores the input. A case is non-trivial unless its byte string is empty.")
 	s.ShardSize = 60
 	// official vector
 	fipsKey := make([]byte, 16)
@@ -307,6 +389,16 @@ func main() {
 		}
 	}
 	frmCase(s, r, 4112, "func-frm-257-blocks")
+	nfam := 40
+	if thorough {
+		nfam = 1200
+	}
+	for i := 0; i < nfam; i++ {
+		frmFamily(s, r, i)
+		if i%2 == 0 {
+			foptsFamily(s, r, i)
+		}
+	}
 	reps := 1
 	if thorough {
 		reps = 12
@@ -393,6 +485,7 @@ func main() {
 				Replay: map[string]interface{}{"api": opAPI[op], "key": hx(k[:]), "frame": t, "observed": o}})
 		}
 	}
+	s.ReplayRemembered(nr.Intn, 3, func() { noise.Step(nr) })
 	if err := s.Finish(); err != nil {
 		fmt.Fprintln(os.Stderr, err)
 		os.Exit(2)
